@@ -324,16 +324,107 @@ class FSplitTree(CExec):
             raise Unsupported("BTree_split copied no items")
 
 
+class FSplitRoot(CExec):
+    """`BTree_split_root(self, noval)`: the root keeps its identity; its contents move into a new child, which
+    BTree_grow then splits (loop-free).
+      at the call of BTree_grow:  the new child holds exactly what the root held (data, len, size, firstbucket);
+                     the root has a fresh 2-slot vector, len 1, `data[0].child` is the new child, its firstbucket
+                     is unchanged                                    (`F-SPLIT:BTree_split_root:handover:<clause>`)
+      returns -1 without having called BTree_grow (creating the child or allocating the vector failed)
+                 =>  the root is exactly as it was: data, len, size, firstbucket        (`...:fail:root_unchanged`)
+                     and the child released on that path holds nothing of the root's     (`...:fail:released_child_owns_nothing`)
+    Trusted: PyObject_CallObject returns NULL or a new object that is neither the root nor one of its children;
+    BTree_Malloc as for bucket_split."""
+    family = "F-SPLIT"
+
+    @classmethod
+    def applies(cls, tu, fn):
+        return fn == "BTree_split_root"
+
+    count_of = FSplit.count_of
+
+    def on_entry(self, st):
+        ps = [p for p in self.fn.get("inner", []) if p["kind"] == "ParmVarDecl"]
+        if not ps or ps[0].get("name") != "self":
+            raise Unsupported("BTree_split_root's first parameter is not self")
+        self.S = st.vars[ps[0]["id"]]
+        self.old = {f: z3.Select(H0(f), self.S) for f in ("data", "len", "size", "firstbucket")}
+        self.assumptions += [self.S != 0, self.old["len"] >= 1, self.old["size"] >= self.old["len"], self.old["data"] != 0]
+        self.grow = []               # guards of the paths that reached BTree_grow
+        self.child = None
+
+    def on_call(self, name, args, n, st):
+        if name == "PyObject_CallObject":
+            r = fresh("newnode")
+            self.assumptions.append(z3.Or(r == 0, z3.And(r > 0, r != self.S)))
+            self.child = r
+            # a new object: empty (no vector, no first bucket)
+            for fld in ("data", "len", "size", "firstbucket"):
+                self.assumptions.append(z3.Select(H0(fld), r) == 0)
+            return r
+        if name in ("BTree_Malloc", "malloc"):
+            cnt = self.count_of(n["inner"][1], st)
+            r = fresh("blk")
+            d0, s0 = self.old["data"], self.old["size"]
+            self.assumptions.append(z3.Or(r == 0, z3.And(r > 0, z3.Or(r + cnt <= d0, d0 + s0 <= r))))
+            self.vec = (r, cnt)
+            return r
+        if name == "BTree_grow":
+            S, c = self.S, self.child
+
+            def f(field, ptr):
+                return self.hread(st, field, ptr)
+            if c is None:
+                self.oblige(st, "F-SPLIT:BTree_split_root:handover:child_created", z3.BoolVal(False))
+            else:
+                goals = {
+                    "child_holds_the_old_contents": z3.And(c != 0, f("data", c) == self.old["data"], f("len", c) == self.old["len"],
+                                                           f("size", c) == self.old["size"], f("firstbucket", c) == self.old["firstbucket"]),
+                    "root_has_one_child": z3.And(f("len", S) == 1, f("size", S) == 2, f("data", S) != 0,
+                                                 f("data", S) != self.old["data"], f("child", f("data", S)) == c),
+                    "root_first_bucket_kept": f("firstbucket", S) == self.old["firstbucket"],
+                    "split_the_only_child": args[1] == 0,
+                }
+                for nm, g in goals.items():
+                    self.oblige(st, "F-SPLIT:BTree_split_root:handover:" + nm, g)
+            self.grow.append(st.guard)
+            self.havoc_heap(st, "call BTree_grow")
+            return fresh("ret_BTree_grow")
+        if name in ("Py_DECREF", "_Py_DECREF", "Py_XDECREF") and self.child is not None:
+            # releasing the new child destroys it: it must not (yet / any more) hold the root's vector or first bucket
+            self.oblige(st, "F-SPLIT:BTree_split_root:fail:released_child_owns_nothing",
+                        z3.Implies(args[0] == self.child, z3.And(self.hread(st, "data", self.child) == 0,
+                                                                 self.hread(st, "firstbucket", self.child) == 0)),
+                        "the new child is released while it holds the root's item vector / first bucket: its destructor frees what "
+                        "the root still points to")
+            return fresh("ret_" + name)
+        if name in ("Py_INCREF", "Py_DECREF", "_Py_INCREF", "_Py_DECREF", "Py_TYPE", "_Py_IsImmortal", "_Py_Dealloc", "Py_XDECREF"):
+            return fresh("ret_" + name)
+        raise Unsupported("BTree_split_root calls %s" % name)
+
+    def on_return(self, st, v):
+        if v is None:
+            raise Unsupported("BTree_split_root returns no value")
+        S = self.S
+        grew = z3.Or(*self.grow) if self.grow else z3.BoolVal(False)
+        same = z3.And(*[self.hread(st, f, S) == self.old[f] for f in ("data", "len", "size", "firstbucket")])
+        self.oblige(st, "F-SPLIT:BTree_split_root:fail:root_unchanged", z3.Implies(z3.And(v == -1, z3.Not(grew)), same),
+                    "the root was modified although creating the child / allocating its new vector failed")
+        if not self.grow:
+            raise Unsupported("BTree_split_root no longer calls BTree_grow")
+
+
+
 class FSplitAny(CExec):
     """Dispatch: one analysis id, two functions."""
     family = "F-SPLIT"
 
     @classmethod
     def applies(cls, tu, fn):
-        return fn in ("bucket_split", "BTree_split")
+        return fn in ("bucket_split", "BTree_split", "BTree_split_root")
 
     def __new__(cls, tu, fname):
-        return (FSplit if fname == "bucket_split" else FSplitTree)(tu, fname)
+        return {"bucket_split": FSplit, "BTree_split": FSplitTree, "BTree_split_root": FSplitRoot}[fname](tu, fname)
 
 
 ANALYSIS = {"F-SPLIT": FSplitAny}
